@@ -73,6 +73,11 @@ func ruleRawVsCompressed(c *Ctx, r *Report, prefix string) {
 						if rawEdge.Succs[1] == cmpEdge {
 							rawEdge = rawEdge.Succs[0]
 						}
+					} else if (bo.Op == token.GTR && isCallOf(bo.X, comp) && isCallOf(bo.Y, dlen)) || (bo.Op == token.LSS && isCallOf(bo.X, dlen) && isCallOf(bo.Y, comp)) {
+						// the negated spelling (u >= c || Compressed() > Len() => compressed)
+						if rawEdge.Succs[0] == cmpEdge {
+							rawEdge = rawEdge.Succs[1]
+						}
 					}
 				}
 			}
